@@ -4,6 +4,10 @@ OPS += [
  # pipe!(source, op₁, op₂) of two relays as ONE machine (Ops/Compose.lean), via the fusion refinement (Inv/Fuse.lean)
  ("pipe_of_two_relays", "{σ₁ σ₂ α β γ : Type} (k₁ : Relay.Kind σ₁ α β) (k₂ : Relay.Kind σ₂ β γ)\n    (h₁ : k₁.slotted = false → ∀ s a, (k₁.xfer s a).2 ≠ none) (h₂ : k₂.slotted = false → ∀ s b, (k₂.xfer s b).2 ≠ none)",
   "compose (Relay.machine k₁) (Relay.machine k₂)", "Fuse.compose_relay_basicSafe k₁ k₂ h₁ h₂ s hs", "Fuse"),
+ # pipelines of ANY length and bracketing: assume–guarantee (Inv/ComposeSafe.lean); `Pipeable` is closed under `compose`
+ # (`Pipeable.compose`), base cases `Relay.pipeable` (map / filter / scan / skip) and `Take.pipeable`
+ ("pipeline", "{S1 L1 S2 L2 α β γ : Type} {M1 : Machine S1 L1 α β} {M2 : Machine S2 L2 β γ} (P1 : Pipeable M1) (P2 : Pipeable M2)",
+  "compose M1 M2", "(P1.compose P2).safe s hs", "ComposeSafe"),
 ]
 READABLE = {
  "01": ("GreetFirstOnce", "greetFirstOnce_of_clean hs (fun v hv => h.1 v (by unfold G.viols; exact List.mem_append_right _ hv)) k",
